@@ -260,6 +260,9 @@ func runT6(c *load.Ctx, r *report.RuleResult) {
 				}
 			default:
 				switch {
+				case flag == "":
+					r.Bad(key, pos, "the flag's value is not consulted: the bound ends up "+map[string]string{"true": "exclusive", "false": "inclusive", "symbolic": "unchanged", "untouched": "unchanged"}[boundExcl]+" whatever the rule says (a false flag must be inert, a true one must apply)")
+					bad = true
 				case v != "accept":
 					r.Bad(key, pos, "flag and bound present but rejected: "+o.Exit())
 					bad = true
